@@ -99,9 +99,51 @@ func runC09(c *Ctx) {
 			fns = append(fns, fn)
 		}
 	}
-	// reviewed early exits: function → reason
-	earlyOK := map[string]string{
-		"pkg/scheduler/plugins/proportion/resource_division.divideUpToFairShare": "leaves the round when nothing is left; every amount of the round is a share of amountToGiveInCurrentRound fixed before the loop and the shares sum to it, so the total reaches 0 only after all positive shares were given",
+	// an early exit is acceptable when it is "nothing is left": its condition compares with zero a value that is
+	// carried around this loop and only ever reduced by the amounts handed out in it (every amount of a round is a
+	// share of the amount fixed before the loop and the shares sum to it, so the total reaches 0 only after all
+	// positive shares were given)
+	nothingLeftExit := func(l mapLoop, b *ssa.BasicBlock) bool {
+		// b leaves the loop directly or through a block that only logs and jumps out
+		var cond ssa.Value
+		if iff, ok := b.Instrs[len(b.Instrs)-1].(*ssa.If); ok {
+			cond = iff.Cond
+		} else if len(b.Preds) == 1 {
+			if iff, ok := b.Preds[0].Instrs[len(b.Preds[0].Instrs)-1].(*ssa.If); ok {
+				cond = iff.Cond
+			}
+		}
+		bo, ok := cond.(*ssa.BinOp)
+		if !ok || (bo.Op != token.EQL && bo.Op != token.LEQ) {
+			return false
+		}
+		k, isC := bo.Y.(*ssa.Const)
+		phi, isPhi := bo.X.(*ssa.Phi)
+		if !isC || !isPhi || phi.Block() != l.Header || k.Value == nil || (k.Value.ExactString() != "0") {
+			return false
+		}
+		handed := map[ssa.Value]bool{}
+		for blk := range l.Blocks {
+			for _, in := range blk.Instrs {
+				if call, ok := in.(*ssa.Call); ok && calleeOf(call) != nil && calleeOf(call).Name() == "AddResourceShare" {
+					args := call.Common().Args
+					handed[args[len(args)-1]] = true
+				}
+			}
+		}
+		for i, e := range phi.Edges {
+			if !l.Blocks[phi.Block().Preds[i]] {
+				continue // initial value
+			}
+			if e == ssa.Value(phi) {
+				continue
+			}
+			sub, ok := e.(*ssa.BinOp)
+			if !ok || sub.Op != token.SUB || sub.X != ssa.Value(phi) || !handed[sub.Y] {
+				return false
+			}
+		}
+		return len(handed) > 0
 	}
 	nLoops := 0
 	for _, fn := range fns {
@@ -115,12 +157,13 @@ func runC09(c *Ctx) {
 			construct := fmt.Sprintf("%s: loop over %s", funcKey(fn), trunc(termOf(l.Range.X).String(), 60))
 			ok := true
 			// (b) early exits
-			if ex := l.earlyExits(); len(ex) > 0 {
-				if why, reviewed := earlyOK[funcKey(fn)]; reviewed {
-					c.Hold("O1", "MAPORDER", construct+": early exit", instrPos(ex[0].Instrs[len(ex[0].Instrs)-1]), "reviewed: "+why)
+			for _, eb := range l.earlyExits() {
+				pos := instrPos(eb.Instrs[len(eb.Instrs)-1])
+				if nothingLeftExit(l, eb) {
+					c.Hold("O1", "MAPORDER", construct+": early exit", pos, "leaves the loop only when the running total, reduced only by the hand-outs of this loop, has reached zero")
 				} else {
 					ok = false
-					c.Viol("O1", "MAPORDER", construct+": early exit", instrPos(ex[0].Instrs[len(ex[0].Instrs)-1]), "the loop over a queue map can stop before all queues were visited: which queues are served depends on the enumeration order")
+					c.Viol("O1", "MAPORDER", construct+": early exit", pos, "the loop over a queue map can stop before all queues were visited (for a reason other than 'nothing is left'): which queues are served depends on the enumeration order")
 				}
 			}
 			// (c) amounts handed to an element must not depend on a value carried around this loop
@@ -306,52 +349,68 @@ func runC09(c *Ctx) {
 			c.Check(ok, "O4", "DOM", funcKey(cs)+": only unsatisfied queues receive a weight", instrPos(in), trunc(d, 80), "a satisfied queue takes part in the normalisation")
 		}
 	}
-	if du := c.Anchor("O4", pkgResDiv, "", "divideUpToFairShare"); du != nil {
-		calc := p.Func(pkgResDiv, "", "calcShareWeights")
+	if calc := c.Anchor("O4", pkgResDiv, "", "calcShareWeights"); calc != nil {
 		n := 0
-		for _, in := range instrsIn(du, func(in ssa.Instruction) bool {
-			bo, ok := in.(*ssa.BinOp)
-			return ok && bo.Op == token.QUO
-		}) {
-			bo := in.(*ssa.BinOp)
-			x, y := termOf(bo.X), termOf(bo.Y)
-			if !x.contains(func(t *Term) bool { return t.isCallTo(calc) }) && !y.contains(func(t *Term) bool { return t.isCallTo(calc) }) {
+		for _, fn := range fns {
+			if !strings.HasPrefix(relPkg(funcPkgPath(fn)), pkgResDiv) || sameFunc(fn, calc) {
 				continue
 			}
-			n++
-			var cx, cy ssa.Value
-			x.walk(func(t *Term) bool {
-				if t.isCallTo(calc) {
-					cx = t.V
+			for _, in := range instrsIn(fn, func(in ssa.Instruction) bool {
+				bo, ok := in.(*ssa.BinOp)
+				return ok && bo.Op == token.QUO
+			}) {
+				bo := in.(*ssa.BinOp)
+				lk, isLookup := bo.X.(*ssa.Lookup)
+				if !isLookup || termOf(lk.Index).lastField() != "UID" {
+					continue
 				}
-				return true
-			})
-			y.walk(func(t *Term) bool {
-				if t.isCallTo(calc) {
-					cy = t.V
+				// where do the weight table and the divisor come from (through helper parameters)?
+				ms, ss := p.origins(lk.X, 2), p.origins(bo.Y, 2)
+				fromCalc := false
+				for _, m := range ms {
+					if termOf(m).contains(func(t *Term) bool { return t.isCallTo(calc) }) {
+						fromCalc = true
+					}
 				}
-				return true
-			})
-			okShape := x.Op == "lookup" && x.Args[0].Op == "extract" && x.Args[0].Name == "0" && x.Args[1].lastField() == "UID" && y.Op == "extract" && y.Name == "1" && cx != nil && cx == cy
-			c.Check(okShape, "O4", "PROV", funcKey(du)+": queue weight and normaliser come from the same calcShareWeights call", instrPos(in), "weights[queue.UID] / sum", "the normalised weight divides "+trunc(x.String(), 80)+" by "+trunc(y.String(), 80))
+				if !fromCalc {
+					continue
+				}
+				n++
+				okShape := len(ms) == len(ss) && len(ms) > 0
+				for i := range ms {
+					if !okShape {
+						break
+					}
+					em, isEm := ms[i].(*ssa.Extract)
+					es, isEs := ss[i].(*ssa.Extract)
+					if !isEm || !isEs || em.Index != 0 || es.Index != 1 || em.Tuple != es.Tuple {
+						okShape = false
+					}
+				}
+				c.Check(okShape, "O4", "PROV", funcKey(fn)+": queue weight and normaliser come from the same calcShareWeights call", instrPos(in), "weights[queue.UID] / sum", "the normalised weight divides "+trunc(termOf(bo.X).String(), 80)+" by "+trunc(termOf(bo.Y).String(), 80)+", which are not the two results of one calcShareWeights call")
+			}
 		}
 		c.Floor("O4", "PROV normalisations", n, 1)
 		// the round's amount is fixed before the queues are visited (not the running total)
-		for _, in := range instrsIn(du, func(in ssa.Instruction) bool {
-			bo, ok := in.(*ssa.BinOp)
-			return ok && bo.Op == token.MUL
-		}) {
-			bo := in.(*ssa.BinOp)
-			for _, l := range mapLoopsOf(du) {
-				if !l.Blocks[bo.Block()] {
-					continue
-				}
+		for _, fn := range fns {
+			if !strings.HasPrefix(relPkg(funcPkgPath(fn)), pkgResDiv) {
+				continue
+			}
+			for _, l := range mapLoopsOf(fn) {
 				carried := func(v ssa.Value) bool {
 					phi, isPhi := v.(*ssa.Phi)
 					return isPhi && phi.Block() == l.Header
 				}
-				dep := dependsOn(bo.X, carried, l.Blocks, map[ssa.Value]bool{}, 8) || dependsOn(bo.Y, carried, l.Blocks, map[ssa.Value]bool{}, 8)
-				c.Check(!dep, "O4", "MAPORDER", funcKey(du)+": the share of a round is a fraction of the amount fixed at the start of the round", instrPos(in), "amountToGiveInCurrentRound × normalised weight", "the share is computed from the running total, which earlier queues of the same round already reduced")
+				for b := range l.Blocks {
+					for _, in := range b.Instrs {
+						bo, ok := in.(*ssa.BinOp)
+						if !ok || bo.Op != token.MUL {
+							continue
+						}
+						dep := dependsOn(bo.X, carried, l.Blocks, map[ssa.Value]bool{}, 8) || dependsOn(bo.Y, carried, l.Blocks, map[ssa.Value]bool{}, 8)
+						c.Check(!dep, "O4", "MAPORDER", funcKey(fn)+": the share of a round is a fraction of the amount fixed at the start of the round", instrPos(in), "amountToGiveInCurrentRound × normalised weight", "the share is computed from the running total, which earlier queues of the same round already reduced")
+					}
+				}
 			}
 		}
 	}
